@@ -201,18 +201,32 @@ func bakedStart(w *World) int {
 	}
 }
 
-// scenarioSign is the honest key generation + signing workload shared by C01,
-// C03 and C07 (each property evaluates its own oracle over it).
+// runSignScenario is the honest key generation + signing workload shared by
+// C01, C03 and C07 (each property evaluates its own oracle over it).
 //
-// mode "c01": slow signers never answer the batch (different t-subsets).
+//	C01: slow signers never answer a batch, so different t-subsets are combined;
+//	C03: input-heavy (file names, duplicates, baked boundaries), payload oracles;
+//	C07: slow signers answer late: after the batch finished, after the next
+//	     batch was proposed, or at the very end (bounded liveness oracle).
 func runSignScenario(w *World, tier string, prop string) (bool, interface{}) {
 	n, t := pickNT(w, tier)
+	if prop == "C03" && n > 3 && tier != "thorough" {
+		n = 3
+		if t > n {
+			t = n
+		}
+	}
 	c := NewCluster(w, n)
 	c.L.Faults.ShortReads = w.Tape.Bool(1, 2, "shortReads")
 	c.L.Faults.PermuteResults = true
 	members := AllMembers(n)
 	so := &signOracle{c: c, prop: prop}
 	so.install()
+	var po *payloadOracle
+	if prop == "C03" {
+		po = &payloadOracle{c: c}
+		po.install()
+	}
 
 	round, rep := c.StartDKG(w.Tape.Choose(n, "proposer"), t, members)
 	if !rep.OK() {
@@ -220,61 +234,133 @@ func runSignScenario(w *World, tier string, prop string) (bool, interface{}) {
 		return false, nil
 	}
 	if !c.RunDKG(round, members, 400*n) {
+		if prop == "C07" || prop == "C01" || prop == "C03" {
+			// an honest ceremony that does not complete is outside these
+			// properties' premises; it is counted, not judged here
+			w.Stats.Probe("dkg-incomplete")
+		}
 		return false, fmt.Sprintf("n=%d t=%d: key generation did not complete (states %v)", n, t, states(c, round))
 	}
 	w.Abstract["dkg-ready"] = true
 
 	nb := 1 + w.Tape.Choose(3, "batches")
+	maxBaked := 3
+	if prop == "C03" && tier == "thorough" && w.Tape.Bool(1, 6, "longBaked") {
+		maxBaked = 64
+	}
 	var prev [][]byte
 	descs := []string{}
-	for b := 0; b < nb && !w.Failed(); b++ {
-		// which participants sign this batch: a subset of size >= t
-		signers := map[int]bool{}
-		k := t + w.Tape.Choose(n-t+1, "extraSigners")
-		perm := permOf(w, n)
-		for _, i := range perm[:k] {
-			signers[i] = true
-		}
-		for i, op := range c.Ops {
-			i := i
-			op.Filter = func(o *types.Operation) bool {
-				if o.IsSigningState() {
-					return signers[i]
-				}
+	// release[batchID] : slow signers may answer that batch now
+	release := map[string]bool{}
+	never := map[string]map[int]bool{} // C01: signers that never answer the batch
+	slowOf := map[string]map[int]bool{}
+	for i, op := range c.Ops {
+		i := i
+		op.Filter = func(o *types.Operation) bool {
+			bid := BatchOfOp(o)
+			if bid == "" {
 				return true
 			}
-		}
-		before := len(c.Tr.Order)
-		d := genBatch(c, round, perm[w.Tape.Choose(n, "proposer")], b, prev, 3)
-		descs = append(descs, fmt.Sprintf("%s signers=%d", d, k))
-		// run until the proposal is on the board and everybody stores the batch
-		ok := c.L.RunUntil(func() bool {
-			if len(c.Tr.Order) <= before {
+			if never[bid][i] {
 				return false
 			}
-			bi := c.Tr.LastBatch()
-			return c.Tr.AllHaveBatch(bi, members) && c.AllInState(round, StIdle, members)
-		}, 300*n)
-		if len(c.Tr.Order) > before {
-			bi := c.Tr.LastBatch()
-			for _, em := range bi.Msgs {
-				if !em.Baked && em.Payload != nil {
-					prev = append(prev, em.Payload)
-				}
+			if slowOf[bid][i] && !release[bid] {
+				return false
 			}
-			if !ok && len(bi.Msgs) > 0 && prop == "C07" {
-				w.Fail(prop, "batch-not-reconstructed", fmt.Sprintf("batch %d (%s) answered by %d>=t=%d participants was not stored by every node", b, d, k, t))
+			return true
+		}
+	}
+	var pendingRelease []string // batches whose slow answers are released when the next proposal is on the board
+	for b := 0; b < nb && !w.Failed(); b++ {
+		k := t + w.Tape.Choose(n-t+1, "extraSigners")
+		perm := permOf(w, n)
+		fast := map[int]bool{}
+		for _, i := range perm[:k] {
+			fast[i] = true
+		}
+		before := len(c.Tr.Order)
+		d := genBatch(c, round, perm[w.Tape.Choose(n, "proposer")], b, prev, maxBaked)
+		// the proposal must reach the board before we can name the batch
+		c.L.RunUntil(func() bool { return len(c.Tr.Order) > before }, 20*n)
+		if len(c.Tr.Order) <= before {
+			descs = append(descs, d+" (not accepted)")
+			continue
+		}
+		bi := c.Tr.LastBatch()
+		slow := map[int]bool{}
+		for i := 0; i < n; i++ {
+			if !fast[i] {
+				slow[i] = true
 			}
 		}
-		// drop the operations slow signers never answered so they do not leak into the next batch
-		c.L.Quiesce(6)
+		relMode := 0
+		if prop == "C07" {
+			slowOf[bi.BatchID] = slow
+			relMode = w.Tape.Choose(3, "releaseMode")
+			for _, old := range pendingRelease {
+				release[old] = true // stale answers may now race with this batch
+				w.Stats.Probe("stale-answers-released-into-later-batch")
+			}
+			pendingRelease = nil
+		} else {
+			never[bi.BatchID] = slow
+		}
+		descs = append(descs, fmt.Sprintf("%s signers=%d rel=%d", d, k, relMode))
+		ok := c.L.RunUntil(func() bool {
+			return c.Tr.AllHaveBatch(bi, members) && c.AllInState(round, StIdle, members)
+		}, 300*n)
+		for _, em := range bi.Msgs {
+			if !em.Baked && em.Payload != nil {
+				prev = append(prev, em.Payload)
+			}
+		}
+		if !ok && len(bi.Msgs) > 0 && prop == "C07" && !w.Failed() {
+			w.Fail(prop, "batch-not-reconstructed", fmt.Sprintf("batch #%d (%s), correctly answered by %d >= t=%d participants, is not stored by every node / round not idle (states %v)", b, d, len(bi.Answered), t, states(c, round)))
+		}
+		if prop == "C07" {
+			switch relMode {
+			case 0:
+				release[bi.BatchID] = true // late answers to a finished batch, round idle
+			case 1:
+				pendingRelease = append(pendingRelease, bi.BatchID)
+			default: // released at the very end
+			}
+		}
+		c.L.RunUntil(func() bool { return false }, 3*n)
 	}
 	for _, op := range c.Ops {
-		op.Filter = nil
+		op.Filter = func(o *types.Operation) bool { return !never[BatchOfOp(o)][op.Idx] }
 	}
+	c.L.Quiesce(12)
 	so.checkStores(round, members)
+	if prop == "C07" && !w.Failed() {
+		// bounded liveness: every batch answered by >= t participants is stored
+		// (valid, judged by checkStores) on every node, and the round is idle
+		for _, bid := range c.Tr.Order {
+			bi := c.Tr.Batches[bid]
+			if len(bi.Msgs) == 0 || len(bi.Answered) < t {
+				continue
+			}
+			for _, i := range members {
+				if !c.Tr.NodeHasBatch(w.Nodes[i], bi) {
+					w.Fail(prop, "batch-missing-after-quiescence", fmt.Sprintf("node %d lacks signatures of batch at board offset %d answered by %d participants", i, bi.Offset, len(bi.Answered)))
+				}
+			}
+		}
+		if !w.Failed() && !c.AllInState(round, StIdle, members) {
+			w.Fail(prop, "round-not-idle-after-quiescence", fmt.Sprintf("states %v", states(c, round)))
+		}
+	}
+	if po != nil && !w.Failed() {
+		po.checkStores(round, members)
+	}
 	w.Abstract[fmt.Sprintf("n%d-t%d", n, t)] = true
-	return so.seen > 0, map[string]interface{}{"n": n, "t": t, "batches": descs, "signatures_checked": so.seen, "board_len": w.Board.Len()}
+	sample := map[string]interface{}{"n": n, "t": t, "batches": descs, "signatures_checked": so.seen, "board_len": w.Board.Len()}
+	if po != nil {
+		sample["partials_checked"] = po.partials
+		sample["store_entries_checked"] = po.entries
+	}
+	return so.seen > 0, sample
 }
 
 func permOf(w *World, n int) []int {
@@ -298,7 +384,10 @@ func states(c *Cer, round string) []string {
 }
 
 func init() {
-	Register(&Scenario{Prop: "C01", Name: "C01", Run: func(w *World, tier string) (bool, interface{}) {
-		return runSignScenario(w, tier, "C01")
-	}})
+	for _, p := range []string{"C01", "C03", "C07"} {
+		p := p
+		Register(&Scenario{Prop: p, Name: p, Run: func(w *World, tier string) (bool, interface{}) {
+			return runSignScenario(w, tier, p)
+		}})
+	}
 }
